@@ -70,6 +70,14 @@ func (g *cfgGen) assemble() {
 				st.Fields = append(st.Fields, &SubField{Name: fd.Name})
 			}
 			subs[a.home].Types = append(subs[a.home].Types, st)
+			for _, s2 := range a.partial {
+				subs[s2].Types = append(subs[s2].Types, &SubType{Name: a.def.Name, Fields: []*SubField{{Name: "id"}}})
+				for _, impl := range super.PossibleTypes(a.def.Name) {
+					if subs[s2].Type(impl) == nil {
+						declare(s2, g.obj(impl), true)
+					}
+				}
+			}
 		} else {
 			subs[a.home].Unions = append(subs[a.home].Unions, a.def.Name)
 		}
@@ -150,6 +158,9 @@ func (g *cfgGen) assemble() {
 	}
 	for _, sg := range subs {
 		for _, st := range sg.Types {
+			if td := super.Type(st.Name); td == nil || td.Kind != KObject {
+				continue
+			}
 			kf := keyFieldNames(st.Keys)
 			for _, sf := range st.Fields {
 				if !sf.External && !kf[sf.Name] && count[st.Name+"."+sf.Name] > 1 {
@@ -164,6 +175,19 @@ func (g *cfgGen) assemble() {
 		}
 		sort.SliceStable(sg.Types, func(a, b int) bool { return idx[sg.Types[a].Name] < idx[sg.Types[b].Name] })
 		sort.Strings(sg.Unions)
+	}
+	if g.k["unresolvable"] {
+		for s, sg := range subs {
+			for _, st := range sg.Types {
+				t := g.obj(st.Name)
+				if t == nil || t.cat != catEntity || hasInt(t.subs, s) {
+					continue
+				}
+				if g.r.Chance(1, 2) {
+					st.Unresolvable = true
+				}
+			}
+		}
 	}
 	g.cfg.Subgraphs = subs
 }
